@@ -35,6 +35,7 @@ Context::Context(const Context &other)
     id(nextContextId++),
     isFunctionCtx(other.isFunctionCtx),
     isCompositeCtx(other.isCompositeCtx),
+    typeScope(other.typeScope),
     returnType(other.returnType)
 {
     copyPtrVector(other.variables, variables, this);
@@ -247,7 +248,7 @@ bool Context::isIdentifierType(const Token &identifier, bool global) {
 }
 
 Enum *Context::getEnumElement(const std::string &value, bool global) {
-    if (isCompositeCtx && parent != nullptr) return parent->getEnumElement(value, global);
+    if (isCompositeCtx && parent != nullptr) return (typeScope != nullptr ? typeScope : parent)->getEnumElement(value, global);
     for (auto &definition : enums) {
         for (size_t i = 0; i < definition->values.size(); i++) {
             if (definition->values[i] == value) {
@@ -274,7 +275,7 @@ void Context::createCompositeDefinition(CompositeTypeDefinition &&definition) {
 }
 
 const EnumTypeDefinition *Context::getEnumDefinition(const std::string &name, bool global) {
-    if (isCompositeCtx && parent != nullptr) return parent->getEnumDefinition(name, global);
+    if (isCompositeCtx && parent != nullptr) return (typeScope != nullptr ? typeScope : parent)->getEnumDefinition(name, global);
     for (const auto &e : enums) {
         if (e->name == name) return e.get();
     }
@@ -283,7 +284,7 @@ const EnumTypeDefinition *Context::getEnumDefinition(const std::string &name, bo
 }
 
 const PointerTypeDefinition *Context::getPointerDefinition(const std::string &name, bool global) {
-    if (isCompositeCtx && parent != nullptr) return parent->getPointerDefinition(name, global);
+    if (isCompositeCtx && parent != nullptr) return (typeScope != nullptr ? typeScope : parent)->getPointerDefinition(name, global);
     for (const auto &p : pointers) {
         if (p->name == name) return p.get();
     }
@@ -292,7 +293,7 @@ const PointerTypeDefinition *Context::getPointerDefinition(const std::string &na
 }
 
 const CompositeTypeDefinition *Context::getCompositeDefinition(const std::string &name, bool global) {
-    if (isCompositeCtx && parent != nullptr) return parent->getCompositeDefinition(name, global);
+    if (isCompositeCtx && parent != nullptr) return (typeScope != nullptr ? typeScope : parent)->getCompositeDefinition(name, global);
     for (const auto &c : composites) {
         if (c->name == name) return c.get();
     }
